@@ -11,6 +11,8 @@
 -/
 import JP.Lemmas.Safety
 import JP.Lemmas.LexTotal
+import JP.Guards
+import JP.Generated.Tables
 namespace JP.Props.C06
 open JP JP.Pointer JP.Lemmas
 
@@ -62,6 +64,15 @@ theorem patch_build_safe (dec : EscDec) (ue : Bool) (ops : J) (err : Err)
 theorem patch_apply_safe (ops : List Patch.Op) (doc : J) (err : Err)
     (h : Patch.apply ops doc = .error err) : err = .patch ∨ err = .patchTest :=
   Lemmas.patch_apply_safe ops doc err h
+
+/-- **Translated**: every conversion of caller-supplied text that can raise a built-in exception — `int`, `float`,
+    `re.compile` / `re.fullmatch` / `re.search`, the parser's `json.loads`, the unicode-escape codec — in parse.py,
+    match.py, search.py, pointer.py and patch.py sits inside handlers for all the built-in exceptions it can raise
+    (ValueError; OverflowError and re.error for patterns; JSONDecodeError; UnicodeError), or is one of the
+    reviewed sites whose argument has just been matched by the number / index-token pattern. Removing a handler,
+    narrowing an `except`, or adding an unguarded conversion breaks this `decide`. -/
+theorem conversions_guarded :
+    Guards.guardsOK Generated.conversionGuards = true ∧ Guards.compilerSitesPresent Generated.conversionGuards = true := by decide
 
 /-- **Lexing any text fails only with a syntax error** (character-level lexer model): every rule consumes at
     least one character, so the scan always terminates within its fuel and the only failure is an
